@@ -132,7 +132,7 @@ structure M where
   afterLogoutCb : Bool := false
   sentResetOnConn : Bool := false    -- C07: we wrote a Logon carrying 141=Y on the current connection
   lastRtime : Option Int := none     -- C07: the clock of the previous CheckResetTime call (ResetSeqTime configured)
-  ourResetPending : Bool := false    -- C07: our own reset Logon is out and no Logon has been received since
+  ourResetPending : Bool := false    -- C07: our own reset Logon is out and no Logon has been accepted since (= sentReset)
   -- C04 / C20
   fromLogonGap : Bool := false
   hb : Int := 0
@@ -423,8 +423,10 @@ def c07 (ms : M) (e : Event) : List String :=
   let badReset := if !resets.isEmpty && !justified then ["C07.unjustified_reset{op=" ++ opName e.op ++ "}"] else []
   -- FIX.4.0 has no ResetSeqNumFlag
   let echoOfPeer := (inb.map fun m => kindOf m == "A" && fget m.f 141 == some "Y").getD false
-  let bad40 := if cfg.bs == 0 && !echoOfPeer && (wires e.items).any (fun (k, _, f) => k == "A" && (fget f 141).isSome)
-               then ["C07.reset_flag_in_fix40" ++ (if isRtime then "{op=rtime}" else "")] else []
+  -- (only where `shouldSendReset` decides: the property text is silent about FIX.4.0 on the ResetSeqTime path, where
+  --  CheckResetTime sends the flag whatever the BeginString — remark in Props/C07.lean)
+  let bad40 := if cfg.bs == 0 && !echoOfPeer && !isRtime && (wires e.items).any (fun (k, _, f) => k == "A" && (fget f 141).isSome)
+               then ["C07.reset_flag_in_fix40"] else []
   -- ResetSeqTime applies (crossing while logged on): store reset, our Logon is number 1 and carries 141=Y, and the
   -- counters are as after numbering from 1 with that Logon as outbound 1
   let badRtime : List String :=
@@ -441,14 +443,16 @@ def c07 (ms : M) (e : Event) : List String :=
   let badEchoReset := match inb with
     | some m =>
       if kindOf m == "A" && fget m.f 141 == some "Y" && ms.ourResetPending && accepted0 && (viewOf cfg m).clean && !resets.isEmpty
-         && !(cfg.resetOnLogon && !cfg.initiator)
+         && !(cfg.resetOnLogon && !cfg.initiator) && stLoggedOn prev.st      -- (before the handshake a Logon is a request)
       then ["C07.echo_of_own_reset_resets_again{role=" ++ (if cfg.initiator then "initiator" else "acceptor") ++ "}"] else []
     | none => []
   -- the reply to an accepted reset Logon is number 1 and echoes the flag
   let accepted := e.items.contains .onLogon
   let badEcho := match inb with
     | some m =>
-      if kindOf m == "A" && fget m.f 141 == some "Y" && accepted && !cfg.initiator && (viewOf cfg m).clean then
+      -- (not when the Logon is the peer's answer to our own reset Logon in an established session: nothing is replied then)
+      if kindOf m == "A" && fget m.f 141 == some "Y" && accepted && !cfg.initiator && (viewOf cfg m).clean
+         && !(ms.ourResetPending && stLoggedOn prev.st) then
         (match (wires e.items).find? (fun w => w.1 == "A") with
          | some (_, s, f) => if s == "1" && fget f 141 == some "Y" then [] else ["C07.reset_logon_reply_wrong"]
          | none => ["C07.reset_logon_reply_wrong"])
@@ -701,8 +705,9 @@ def monitorStep (ms : M) (e : Event) : M × List String :=
         | _ => ms.lastRtime),
       ourResetPending :=
         (let wroteReset := (wires e.items).any (fun w => w.1 == "A" && fget w.2.2 141 == some "Y")
-         let gotLogon := match inboundOf ms e.op with | some m => kindOf m == "A" | none => false
-         let isConnect := match e.op with | .connect => true | _ => false
+         -- (`sentReset` is lowered exactly when a Logon gets as far as the logon notification)
+         let gotLogon := (match inboundOf ms e.op with | some m => kindOf m == "A" | none => false) && e.items.contains .onLogon
+         let isConnect := (match e.op with | .connect => true | _ => false) && e.after.status == "ok"
          if !stConnected e.after.st then false
          else if gotLogon then false
          else if wroteReset then true
